@@ -462,3 +462,27 @@ package template
 //@ func NewData props=C14
 //@   ensures result.PkgName == pkgName && result.SrcPkgQualifier == srcPkgQualifier && result.Interfaces == interfaces && result.TemplateData == templateData && result.Registry == registry
 //@   assigns nothing
+
+// ---- C03: "nil may be returned for any nillable result type" -----------------------------------------
+// The testify template guards the type assertion of a configured return value with a nil test exactly when
+// Var.Nillable says so; it must say so for every type whose values can be nil.
+//@ spec canBeNil(t types.Type) bool
+//@ axiom canbenil_kinds: forall t types.Type :: (dyn(t) == tagof(*types.Pointer) || dyn(t) == tagof(*types.Map) || dyn(t) == tagof(*types.Interface) || dyn(t) == tagof(*types.Signature) || dyn(t) == tagof(*types.Chan) || dyn(t) == tagof(*types.Slice)) ==> canBeNil(t)
+//@ axiom canbenil_named: forall t types.Type :: dyn(t) == tagof(*types.Named) && canBeNil(t.Underlying()) ==> canBeNil(t)
+//@ axiom canbenil_alias: forall t types.Type :: dyn(t) == tagof(*types.Alias) && canBeNil(t.Underlying()) ==> canBeNil(t)
+//@ axiom canbenil_typeparam: forall t types.Type :: dyn(t) == tagof(*types.TypeParam) && canBeNil(t.Underlying()) ==> canBeNil(t)
+//@ axiom canbenil_only: forall t types.Type :: canBeNil(t) ==> (dyn(t) == tagof(*types.Pointer) || dyn(t) == tagof(*types.Map) || dyn(t) == tagof(*types.Interface) || dyn(t) == tagof(*types.Signature) || dyn(t) == tagof(*types.Chan) || dyn(t) == tagof(*types.Slice)
+//@      || (dyn(t) == tagof(*types.Named) && canBeNil(t.Underlying())) || (dyn(t) == tagof(*types.Alias) && canBeNil(t.Underlying())) || (dyn(t) == tagof(*types.TypeParam) && canBeNil(t.Underlying())))
+// Termination: the chain of underlying types of a named type, an alias or a type parameter is finite.
+//@ spec udepth(t types.Type) int
+//@ axiom udepth_nonneg: forall t types.Type :: udepth(t) >= 0
+//@ axiom udepth_named: forall t types.Type :: dyn(t) == tagof(*types.Named) ==> udepth(t.Underlying()) < udepth(t)
+//@ axiom udepth_alias: forall t types.Type :: dyn(t) == tagof(*types.Alias) ==> udepth(t.Underlying()) < udepth(t)
+//@ axiom udepth_typeparam: forall t types.Type :: dyn(t) == tagof(*types.TypeParam) ==> udepth(t.Underlying()) < udepth(t)
+//@ func nillable props=C03
+//@   decreases udepth(typ)
+//@   ensures#nilok canBeNil(typ) ==> result
+//@   assigns nothing
+//@ func (Var).Nillable props=C03
+//@   ensures#nilok canBeNil(v.typ) ==> result
+//@   assigns nothing
